@@ -4,11 +4,14 @@
    C10-static-minecraft.patch, C10-static-resolved-path.patch, C11-namespace-deleted-last.patch) and [hardened]
    (in addition fixes/C10-function-tags-read-first.patch — needed by C10_failed_build_noop — and fixes/C11-atomic-cert.patch);
    the `_refuted_pinned` theorems show what the original tree ([pinned]) does instead, `_refuted_fixed` what [fixed] still did.
+   [guarded] = [hardened] + the input checks of reports/C10C11-triage.md (fixes/C10-reject-non-namespace-override.patch,
+   fixes/C10-reject-resource-path-outside-folder.patch; [Build.gate], [run] = [run_core] behind the gate) and
+   fixes/C11-stale-own-tick-entry.patch: C10_rejected_noop, C10_paths_lexical need the checks.
    Which variant a source tree has is detected by harness/c10.py with witness builds.
    Tie: harness/c10.py runs the real compile_jmc under harness/fstrace.py and compares trace, tree and result
    with Build.run, and checks the property itself on the real trees (Run/C10.v). *)
 From Coq Require Import String List Bool.
-From JMCV Require Import Model.FS Model.Build Proofs.FS Proofs.Build Proofs.BuildC10.
+From JMCV Require Import Model.FS Model.Build Proofs.FS Proofs.Build Proofs.BuildC10 Proofs.BuildC11 Proofs.BuildGate.
 Import ListNotations.
 
 (* Territory.  For every initial tree [t], configuration, header facts, outcome of the front end, injected
@@ -21,7 +24,7 @@ Theorem C10_territory : forall v c h out fault t ops t' p,
   crash_trace (plan v c h out fault t) ops -> exec ops t = Some t' ->
   node_at t' p <> node_at t p ->
   terr_b c h p = true \/ (anc_b p = true /\ node_at t p = None /\ node_at t' p = Some NDir).
-Proof. exact territory. Qed.
+Proof. exact g_territory. Qed.
 Print Assumptions C10_territory.
 
 (* #static folders and everything below them are byte-identical, at every crash point (repaired behaviour). *)
@@ -30,7 +33,7 @@ Theorem C10_statics_untouched : forall v c h out fault t ops t' p,
   (forall o, out = Success o -> static_safe c h o = true) ->
   crash_trace (plan v c h out fault t) ops -> exec ops t = Some t' ->
   excepted h p = true -> node_at t' p = node_at t p.
-Proof. exact statics_untouched. Qed.
+Proof. exact g_statics_untouched. Qed.
 Print Assumptions C10_statics_untouched.
 
 (* pinned: `#static "../minecraft/keep"` is deleted (data/minecraft goes through plain shutil.rmtree) *)
@@ -38,14 +41,15 @@ Theorem C10_static_minecraft_refuted_pinned :
   exists c h o t t' p, static_safe c h o = true /\ excepted h p = true /\
     exec (plan pinned c h (Success o) None t) t = Some t' /\
     node_at t p = Some (NFile (Raw "kept by hand")) /\ node_at t' p = None.
-Proof. exact static_minecraft_refuted_pinned. Qed.
+Proof. exact g_static_minecraft_refuted_pinned. Qed.
 Print Assumptions C10_static_minecraft_refuted_pinned.
 
-(* A namespace folder that lacks jmc.txt is never touched: plan = [] and the result is the refusal. *)
+(* A namespace folder that lacks jmc.txt is never touched: plan = [] and the result is the refusal (or the header
+   error, when the header itself - or, with [v_ns_checked], one of its #override / #link namespaces - is rejected). *)
 Theorem C10_refusal : forall v c h out fault t,
   is_dir t (ns_dir c) = true -> is_file t (cert_path c) = false ->
-  run v c h out fault t = ([], if match out with FailHeader => true | _ => false end then RHeaderErr else RRefused).
-Proof. exact refusal. Qed.
+  run v c h out fault t = ([], match gate v c h out with FailHeader => RHeaderErr | _ => RRefused end).
+Proof. exact g_refusal. Qed.
 Print Assumptions C10_refusal.
 
 (* A compile that ends in a compilation error (header, lexer/parser, DataPack.build) performs no mutation
@@ -53,7 +57,7 @@ Print Assumptions C10_refusal.
 Theorem C10_failed_compile_noop : forall v c h out fault t,
   v_cert_early v = false ->
   (forall o, out <> Success o) -> plan v c h out fault t = [] /\ exec (plan v c h out fault t) t = Some t.
-Proof. exact failed_compile_noop. Qed.
+Proof. exact g_failed_compile_noop. Qed.
 Print Assumptions C10_failed_compile_noop.
 
 (* ... and so does a build that stops with the JMCBuildError for an unparsable / "values"-less function-tag file, once
@@ -65,21 +69,78 @@ Theorem C10_failed_build_noop : forall v c h out fault t,
   v_cert_early v = false -> v_tags_early v = true ->
   failed (snd (run v c h out fault t)) = true ->
   plan v c h out fault t = [] /\ exec (plan v c h out fault t) t = Some t.
-Proof. exact failed_build_noop. Qed.
+Proof. exact g_failed_build_noop. Qed.
 Print Assumptions C10_failed_build_noop.
+
+(* The two input checks ([Build.gate]).  An #override / #link argument that is not a plain name of ANOTHER namespace
+   ("..", "", "a/../..", a path with separators, the pack's own namespace: header_parse.py __check_namespace,
+   fixes/C10-reject-non-namespace-override.patch) and a function / JSON resource path with an empty, "." or ".." segment
+   (Predicate.locations(name="../../foreign/predicate/x"), a jmc.txt with PRIVATE=../..: compiling.py check_resource_paths,
+   fixes/C10-reject-resource-path-outside-folder.patch) end the compile as a header / build error before anything is touched. *)
+Theorem C10_rejected_noop : forall v c h out fault t,
+  v_cert_early v = false ->
+  (v_ns_checked v = true /\ hdr_ok c h = false) \/
+  (v_paths_checked v = true /\ exists o, out = Success o /\ out_ok o = false) ->
+  plan v c h out fault t = [] /\ failed (snd (run v c h out fault t)) = true.
+Proof. exact rejected_noop. Qed.
+Print Assumptions C10_rejected_noop.
+
+(* With both checks every mutation of every plan is (a) a deletion below ./data/<ns>, ./data/<override>, ./data/minecraft,
+   that folder being spelled with plain names (what lies below comes from directory listings), (b) at a path spelled "."
+   followed by plain names only ([seg_ok]; plain = not "", ".", "..", no "/" or "\" inside), or (c) a #copy destination
+   (names from the listing of the copied folder).  Header and sources cannot make the build address anything through "..":
+   the lexical territory of C10_territory is the real one. *)
+Theorem C10_paths_lexical : forall v c h out fault t x,
+  v_cert_early v = false -> v_ns_checked v = true -> v_paths_checked v = true ->
+  plain (c_ns c) = true -> plain (c_ff c) = true ->
+  In x (plan v c h out fault t) ->
+  (exists F, folderish c h F /\ seg_ok F /\ is_prefix F (op_path x) = true /\ is_mkdir x = false)
+  \/ seg_ok (op_path x)
+  \/ In (op_path x) (copy_paths h).
+Proof. exact paths_lexical. Qed.
+Print Assumptions C10_paths_lexical.
+
+(* [hardened] (no resource-path check; finding C10-resource-path-escapes until the patch is committed):
+   Predicate.locations(name="../../foreign/predicate/x") makes the build create data/ns/predicate/../../foreign/predicate/x.json *)
+Theorem C10_paths_lexical_refuted_hardened :
+  exists x, In x (plan hardened w_cfg w_hdr0 (Success u_out) None w_empty) /\ creates x = true /\
+            In ".."%string (op_path x).
+Proof. exact paths_lexical_refuted_hardened. Qed.
+Print Assumptions C10_paths_lexical_refuted_hardened.
+
+(* ... the same project, `#override ".."` and `#link <own namespace>` under [guarded]: rejected, nothing touched *)
+Example C10_unsafe_input_rejected_guarded :
+  run guarded w_cfg w_hdr0 (Success u_out) None w_empty = ([], RBuildErr) /\
+  run guarded w_cfg (mkHdr [] [".."%string] None false) (Success w_out) None w_empty = ([], RHeaderErr) /\
+  run guarded w_cfg (mkHdr [] ["ns"%string] None false) (Success w_out) None w_empty = ([], RHeaderErr).
+Proof. exact unsafe_path_rejected_guarded. Qed.
+Print Assumptions C10_unsafe_input_rejected_guarded.
+
+(* #static without the [static_safe] proviso: a node inside a #static folder (the folder itself included: `#static "."`,
+   `#static "../minecraft"`, `#static "../<override>"` - statics that ARE a deleted folder) changes only where the build
+   itself writes, i.e. where it begins the path of jmc.txt / jmc.txt.tmp, a function tag, an emitted file, pack.mcmeta or
+   a #copy destination.  Everything else in it is byte-identical at every crash point. *)
+Theorem C10_statics_pointwise : forall v c h out fault t ops t' p,
+  sound v ->
+  crash_trace (plan v c h out fault t) ops -> exec ops t = Some t' ->
+  excepted h p = true ->
+  (forall o w, gate v c h out = Success o -> In w (written_paths c h o) -> is_prefix p w = false) ->
+  node_at t' p = node_at t p.
+Proof. exact statics_pointwise. Qed.
+Print Assumptions C10_statics_pointwise.
 
 (* pinned: refuted for a fresh namespace (read_cert writes jmc.txt before lexing) ... *)
 Theorem C10_refuted_fresh_cert_pinned :
   exists c h out t t', (forall o, out <> Success o) /\
     exec (plan pinned c h out None t) t = Some t' /\ node_at t (cert_path c) = None /\
     node_at t' (cert_path c) = Some (NFile (Raw (c_cert c))).
-Proof. exact failed_compile_noop_refuted_pinned. Qed.
+Proof. exact g_failed_compile_noop_refuted_pinned. Qed.
 Print Assumptions C10_refuted_fresh_cert_pinned.
 
 (* ... and true on the pinned tree only when the namespace folder already exists *)
 Theorem C10_failed_compile_noop_pinned_partial : forall c h out fault t,
   (forall o, out <> Success o) -> is_dir t (ns_dir c) = true -> plan pinned c h out fault t = [].
-Proof. exact failed_compile_noop_pinned_partial. Qed.
+Proof. exact g_failed_compile_noop_pinned_partial. Qed.
 Print Assumptions C10_failed_compile_noop_pinned_partial.
 
 (* [fixed] (tag files read after make_cert / #copy; known finding C10-malformed-tag-after-mutation while
@@ -89,13 +150,13 @@ Theorem C10_tag_error_noop_refuted_fixed :
   exists c h o t t', run fixed c h (Success o) None t = (plan fixed c h (Success o) None t, RTagErr) /\
     exec (plan fixed c h (Success o) None t) t = Some t' /\
     node_at t (cert_path c) = None /\ node_at t' (cert_path c) <> None.
-Proof. exact tag_error_noop_refuted_fixed. Qed.
+Proof. exact g_tag_error_noop_refuted_fixed. Qed.
 Print Assumptions C10_tag_error_noop_refuted_fixed.
 
 (* ... the same tree and project under [hardened]: the error is reported and nothing is touched *)
 Example C10_tag_error_noop_hardened :
   run hardened w_cfg w_hdr0 (Success w_out) None w_tree_badtag = ([], RTagErr).
-Proof. exact tag_error_noop_hardened. Qed.
+Proof. exact g_tag_error_noop_hardened. Qed.
 Print Assumptions C10_tag_error_noop_hardened.
 
 (* non-vacuity: the hypotheses (a plan that executes) are satisfiable, and such a build does change the tree *)
@@ -104,7 +165,7 @@ Example C10_build_executes :
     snd (run fixed w_cfg w_hdr_mc (Success w_out) None w_tree_mc) = RDone /\
     node_at t' ["."; "data"; "ns"; "function"; "g.mcfunction"]%string = Some (NFile (Raw "say g")) /\
     node_at t' ["."; "data"; "minecraft"; "keep"; "m.txt"]%string = Some (NFile (Raw "kept by hand")).
-Proof. exact build_executes. Qed.
+Proof. exact g_build_executes. Qed.
 Print Assumptions C10_build_executes.
 
 (* non-vacuity for [hardened]: the complete build executes; jmc.txt arrives through jmc.txt.tmp + replace *)
@@ -115,5 +176,5 @@ Example C10_build_executes_hardened :
     node_at t' (cert_path w_cfg) = Some (NFile (Raw "LOAD=__load__"%string)) /\ node_at t' (cert_tmp w_cfg) = None /\
     node_at t' ["."; "data"; "ns"; "function"; "g.mcfunction"]%string = Some (NFile (Raw "say g")) /\
     node_at t' ["."; "data"; "minecraft"; "keep"; "m.txt"]%string = Some (NFile (Raw "kept by hand")).
-Proof. exact build_executes_hardened. Qed.
+Proof. exact g_build_executes_hardened. Qed.
 Print Assumptions C10_build_executes_hardened.
